@@ -1,4 +1,7 @@
+pub mod c01;
 pub mod c02;
+pub mod c03;
+pub mod c03b;
 pub mod c04;
 pub mod c06;
 pub mod c07;
@@ -19,7 +22,9 @@ pub struct Entry {
 }
 
 pub const REGISTRY: &[Entry] = &[
+    Entry { id: "C01", level: "fault_enumeration", main: c01::main, replay: c01::replay },
     Entry { id: "C02", level: "exploration", main: c02::main, replay: c02::replay },
+    Entry { id: "C03", level: "fault_enumeration", main: c03::main, replay: c03::replay },
     Entry { id: "C04", level: "exploration", main: c04::main, replay: c04::replay },
     Entry { id: "C06", level: "exploration", main: c06::main, replay: c06::replay },
     Entry { id: "C07", level: "exploration", main: c07::main, replay: c07::replay },
